@@ -565,7 +565,8 @@ func (r *Reconciler) reconcileApply(ctx context.Context, proposal *configapi.Pro
 		}
 
 		// If the configuration is in an old term, wait for synchronization.
-		if config.Status.Applied.Mastership.Term < config.Status.Mastership.Term {
+		// (the applied configuration of a persistent target is never pushed again: there is no term to wait for)
+		if config.Status.State != configapi.ConfigurationStatus_PERSISTED && config.Status.Applied.Mastership.Term < config.Status.Mastership.Term {
 			log.Infof("Waiting for synchronization of Configuration to target '%s'", proposal.TargetID)
 			return controller.Result{}, nil
 		}
